@@ -3,7 +3,7 @@
     ACLs) for the event types whose ruma content struct is in the
     modelled derive subset.  Written from the specification's tables: member name, "Required" column,
     JSON type.  No reference to ruma's code.  Identifier classes: 1 user ID, 2 room ID, 3 event ID,
-    4 room alias, 5 server name, 9 room version.  Integers are the specification's `integer`
+    4 room alias, 5 server name, 9 room version, 10 server signing key ID (`ed25519:<version>`).  Integers are the specification's `integer`
     (canonical-JSON range); where the specification restricts further (non-negative sizes and
     timestamps) the narrower range is used.
 
@@ -50,6 +50,16 @@ Definition spec_contents : list (str * str * sty) := [
   (s!"State", s!"m.policy.rule.user", policy_rule);
   (s!"State", s!"m.room.aliases", SObj [req s!"aliases" (SArr (SId 4))]);
   (s!"State", s!"m.room.avatar", SObj [opt s!"url" SStr; opt s!"info" avatar_image_info]);
+  (s!"State", s!"m.room.create",
+     SObj [opt s!"creator" (SId 1); opt s!"m.federate" SBool; opt s!"room_version" (SId 9); opt s!"type" SStr;
+           opt s!"predecessor" (SObj [req s!"room_id" (SId 2); req s!"event_id" (SId 3)])]);
+  (s!"State", s!"m.room.member",
+     SObj [req s!"membership" SStr; opt s!"avatar_url" SStr; opt s!"displayname" SStr; opt s!"is_direct" SBool;
+           opt s!"reason" SStr; opt s!"join_authorised_via_users_server" (SId 1);
+           opt s!"third_party_invite"
+             (SObj [req s!"display_name" SStr;
+                    req s!"signed" (SObj [req s!"mxid" (SId 1); req s!"token" SStr;
+                                          req s!"signatures" (SMap 5 (SMap 10 SStr))])])]);
   (s!"State", s!"m.room.encryption",
      SObj [req s!"algorithm" SStr; opt s!"rotation_period_ms" SUInt; opt s!"rotation_period_msgs" SUInt]);
   (s!"State", s!"m.room.guest_access", SObj [req s!"guest_access" SStr]);
